@@ -89,6 +89,14 @@ def Reader.run : Nat → Reader → List Nat → Reader × List LEvent
 
 /-- one write of `chunk` to the physical layer, then `read_frame` called until it blocks -/
 def Reader.feed (r : Reader) (chunk : List Nat) : Reader × List LEvent :=
-  Reader.run (2 * chunk.length + 4) r chunk
+  Reader.run (3 * chunk.length + r.pending.length + 4) r chunk
+
+/-- successive writes -/
+def Reader.feedAll (r : Reader) : List (List Nat) → Reader × List LEvent
+  | [] => (r, [])
+  | c :: cs =>
+    let (r', e) := r.feed c
+    let (r'', es) := Reader.feedAll r' cs
+    (r'', e ++ es)
 
 end Dnp3
